@@ -220,6 +220,11 @@ def find_item(t, m, selector, dm=None):
        returns (start, end) offsets (end exclusive)."""
     if dm is None:
         dm = depth_map(t, m)
+    ordinal = None
+    mo = re.search(r'#(\d+)$', selector)
+    if mo:
+        ordinal = int(mo.group(1))
+        selector = selector[:mo.start()]
     kind = selector.split(':', 1)[0]
     if kind == 'method':
         hdr, nm = selector[len('method:'):].rsplit(':', 1)
@@ -235,6 +240,8 @@ def find_item(t, m, selector, dm=None):
         for mm in find_code(t, m, r'\b%s\s+%s\b' % (kw, re.escape(name))):
             if dm[mm.start()] == 0:
                 hits.append(mm.start())
+        if ordinal is not None and ordinal <= len(hits):
+            hits = [hits[ordinal - 1]]
         if len(hits) != 1:
             raise LookupError('%s: %d matches' % (selector, len(hits)))
         s = _item_start(t, hits[0])
@@ -260,6 +267,8 @@ def find_item(t, m, selector, dm=None):
         for mm in find_code(t, m, r'\bfn\s+%s\b' % re.escape(name), b, iend):
             if dm[mm.start()] == 1:
                 fh.append(mm.start())
+        if ordinal is not None and ordinal <= len(fh):
+            fh = [fh[ordinal - 1]]
         if len(fh) != 1:
             raise LookupError('%s: %d fns match' % (selector, len(fh)))
         return _item_start(t, fh[0]), _item_end(t, m, fh[0])
